@@ -1464,7 +1464,7 @@ def _links(ctx):
         # ---- list of ids
         tp, lp = many.params[0], many.params[1]
         cfg = cfg_of(many)
-        ex = Expander(prog, many, ctx.typer)
+        ex = Expander(prog, many, ctx.typer, inline=False)
         rets = [n for n in walk_no_nested(many.node) if isinstance(n, ast.Return) and n.value is not None]
         done = False
         if len(rets) == 1:
